@@ -22,7 +22,7 @@ RULE = ("A case is (message kind, protocol version in {1,2,3,4,5,6,0x41,0x42}, s
         "exists, UNSET values only on v4+, continuous paging only on DSE, CREDENTIALS only on v1, AUTH_RESPONSE/BATCH "
         "on v2+, REVISE_REQUEST on DSE) with boundary-weighted integers/strings/bytes; the 'reject' part adds exactly "
         "one feature the version cannot carry (keyspace, custom payload, continuous paging, v1 serial CL / page size / "
-        "paging state).  The bytes of encode_message are parsed by spec.proto.decode_request and every requested field "
+        "paging state, serial CL on a v2 BATCH).  The bytes of encode_message are parsed by spec.proto.decode_request and every requested field "
         "is compared.  Non-trivial: at least two optional fields present, or a must-reject case, or a "
         "version-dependent layout (4-byte flags on v5/v6/DSE, v1 QUERY/EXECUTE layout, v2 BATCH without flags).")
 ASSUMPTIONS = [
@@ -30,6 +30,7 @@ ASSUMPTIONS = [
     "the compressor is a fake (prefix + body); the real lz4/snappy codecs are not installed and are not the subject of this property",
     "client timestamps are drawn from [0, 2^63) (the spec forbids negative ones from v4 on; the session only sends them on v3+)",
     "header flag 0x10 (USE_BETA) is accepted on every version (v3/v4 specs: unused flags are ignored) and compared with allow_beta",
+    "skip-metadata (flag 0x02) is not an option of the statement: the parser accepts it, the check does not compare it",
 ]
 LEVEL_TEXT = ("Generated-input search against an independent strict parser; a green run means every generated frame "
               "decoded to exactly the requested fields and every must-reject probe raised, not a proof for all inputs.")
@@ -134,9 +135,11 @@ def _batch_opts(draw, v):
             qs.append({"prepared": True, "id": draw(_hex1), "values": draw(_values(v))})
         else:
             qs.append({"prepared": False, "query": draw(_text), "values": []})
-    o = {"type": draw(st.sampled_from([0, 1, 2])), "queries": qs, "cl": draw(_cl), "serial": draw(_serial),
+    o = {"type": draw(st.sampled_from([0, 1, 2])), "queries": qs, "cl": draw(_cl), "serial": None,
          "timestamp": None, "keyspace": None}
     if v >= 3:
+        # v2 BATCH ends after <consistency>: no flags, so neither serial CL nor timestamp can be carried
+        o["serial"] = draw(_serial)
         o["timestamp"] = draw(_opt(_ts))
     if proto.has_keyspace_flag(v):
         o["keyspace"] = draw(_keyspace())
@@ -212,6 +215,7 @@ _REJECTS = {
     "custom_payload": (("QUERY", "EXECUTE", "BATCH", "PREPARE", "REGISTER", "OPTIONS"), lambda v: v < 4),
     "continuous": (("QUERY", "EXECUTE"), lambda v: not proto.has_continuous_paging(v)),
     "serial_v1": (("QUERY", "EXECUTE"), lambda v: v == 1),
+    "serial_v2_batch": (("BATCH",), lambda v: v == 2),
     "page_size_v1": (("QUERY", "EXECUTE"), lambda v: v == 1),
     "paging_state_v1": (("QUERY", "EXECUTE"), lambda v: v == 1),
 }
@@ -244,7 +248,7 @@ def s_reject(draw):
         case["payload"] = draw(_payload())
     elif what == "continuous":
         o["continuous"] = draw(_continuous())
-    elif what == "serial_v1":
+    elif what in ("serial_v1", "serial_v2_batch"):
         o["serial"] = draw(st.sampled_from([8, 9]))
     elif what == "page_size_v1":
         o["fetch"] = draw(_i32pos)
@@ -440,10 +444,9 @@ def interpret_accept(case, ctx):
             eq("result_metadata_id", d["result_metadata_id"], _hexb(o["result_metadata_id"]))
             eq("values", d["values"], [_spec_val(x) for x in o["values"]])
             eq("keyspace", d["keyspace"], None)
-            if v != 1:
-                # v1 EXECUTE has no flags at all; from v2 on the flag 0x02 carries the request
-                eq("skip_metadata", d["skip_metadata"], o["skip_meta"], ["skip_meta=%s" % o["skip_meta"]])
-            optional += bool(o["values"]) + bool(o["skip_meta"])
+            # skip_meta is not in the statement's option list and the driver deliberately never asks the server to
+            # omit metadata: flag 0x02 is accepted by the parser either way and not compared
+            optional += bool(o["values"])
             if any(x == "U" for x in o["values"]):
                 ctx.label("unset-value")
             if any(x is None for x in o["values"]):
@@ -451,7 +454,7 @@ def interpret_accept(case, ctx):
     elif kind == "BATCH":
         eq("batch_type", d["batch_type"], o["type"])
         eq("consistency", d["consistency"], o["cl"])
-        eq("serial_consistency", d["serial_consistency"], o["serial"], ["v2"] if v == 2 else [])
+        eq("serial_consistency", d["serial_consistency"], o["serial"])
         eq("timestamp", d["timestamp"], o["timestamp"])
         eq("keyspace", d["keyspace"], o["keyspace"], ["keyspace=empty"] if o["keyspace"] == "" else [])
         eq("now_in_seconds", d["now_in_seconds"], None)
@@ -512,7 +515,7 @@ def _carried(what, case, d):
         return d.get("custom_payload") is not None
     if what == "continuous":
         return d.get("continuous_paging") is not None
-    if what == "serial_v1":
+    if what in ("serial_v1", "serial_v2_batch"):
         return d.get("serial_consistency") == o["serial"]
     if what == "page_size_v1":
         return d.get("page_size") == o["fetch"]
